@@ -309,6 +309,11 @@ impl Property for C15 {
     fn noisy_clause(&self, clause: &str) -> bool {
         clause == "C15.linear"
     }
+    fn classify_abnormal(&self, case: &Case, clause: &str) -> Option<String> {
+        // the known quadratic (KF-C15-3) seen as a hang once n is large enough
+        let (_, kind, _) = parse_mode(&case.mode);
+        (clause == "C15.no_hang" && kind == "nest_endtag").then(|| "quadratic_end_tag_handler_dispatch".to_string())
+    }
     fn hang_limit_s(&self, case: &Case) -> u64 {
         let (_, _, n) = parse_mode(&case.mode);
         120 + (n as u64) / 2000
@@ -325,7 +330,7 @@ impl Property for C15 {
     fn assumptions(&self) -> Vec<&'static str> {
         vec![
             "build: release profile with debug-assertions and overflow-checks enabled; pathological cases run on an 8 MiB stack",
-            "work proportionality: fail only if cpu(8n)/cpu(n) > 24 and cpu(8n) > 50 ms (wide margins against machine noise)",
+            "work proportionality: fail only if cpu(8n)/cpu(n) > 24, > 3x the same ratio of a plain fill-and-sum loop over a comparable amount of memory measured at the same moment, and cpu(8n) > 50 ms (wide margins against machine noise); user-mode thread CPU time, warm heap (mallopt)",
             "selector nesting / chain lengths stay within 'thousands' as the property's quantifier says",
         ]
     }
@@ -355,7 +360,11 @@ impl Property for C15 {
         let scale = if tier == Tier::Quick { 1 } else { 5 };
         if rng.chance(1, 6) {
             let kind = rng.pick(BIG_KINDS);
-            let n = rng.pick(&[2_000usize, 20_000, 100_000]) * scale / if kind == "selectors" { 10 } else { 1 };
+            let mut n = rng.pick(&[2_000usize, 20_000, 100_000]) * scale / if kind == "selectors" { 10 } else { 1 };
+            if kind == "nest_endtag" {
+                // quadratic by a known finding: beyond this it only burns the hang limit
+                n = n.min(60_000);
+            }
             let mut sc = Scenario::new(vec![]);
             sc.strict = rng.bool();
             if rng.bool() {
@@ -474,7 +483,30 @@ impl Property for C15 {
                         }
                     }
                 }
+                // calibrate against the environment: the same 8x step on a plain fill-and-sum loop
+                // over a comparable amount of memory. When the machine itself is super-linear at
+                // that size (fresh pages, a loaded memory system) the bar moves up with it.
+                let mut env_ratio = 8.0f64;
                 if ratio > 24.0 && big > 0.05 {
+                    let bytes = build_big(case, &kind, n).doc.len().saturating_mul(16).max(1 << 20);
+                    let env = |b: usize| -> f64 {
+                        let mut best = f64::MAX;
+                        for _ in 0..3 {
+                            let t0 = thread_cpu_seconds();
+                            let mut v: Vec<[u64; 6]> = Vec::new();
+                            for i in 0..b / 48 {
+                                v.push([i as u64; 6]);
+                            }
+                            let s: u64 = v.iter().map(|x| x[0]).fold(0, u64::wrapping_add);
+                            std::hint::black_box(s);
+                            best = best.min(thread_cpu_seconds() - t0);
+                        }
+                        best
+                    };
+                    env_ratio = env(bytes * 8) / env(bytes).max(1e-6);
+                    st.evaluations += 6;
+                }
+                if ratio > 24.0 && ratio > 3.0 * env_ratio && big > 0.05 {
                     let detail = format!("{kind}: cpu({}) = {:.1} ms, cpu({}) = {:.1} ms, ratio {:.1} for 8x the input", n, small * 1e3, n * 8, big * 1e3, ratio);
                     if kind == "nest_endtag" {
                         return Ok(Err(Fail::known("C15.linear", detail, "quadratic_end_tag_handler_dispatch")));
